@@ -18,7 +18,8 @@ Inductive kind := KOop | KBoth | KIp.
 Inductive ref := RX | ROut | RTmp (k : nat) | RVec (k : nat).
 
 (* scalars: literals, operator parameters (self.scalar, self.a ...), scalar locals *)
-Inductive scal := SLit (c : Q) | SPar (k : nat) | SVar (k : nat).
+Inductive scal := SLit (c : Q) | SPar (k : nat) | SVar (k : nat)
+  | SAdd (a b : scal) | SSub (a b : scal) | SMul (a b : scal) | SDiv (a b : scal) | SNeg (a : scal).
 
 (* which space `<space>.element()` / `<space>.zero()` refers to *)
 Inductive spsel := SpDom | SpRan | SpKidDom (c : nat) | SpKidRan (c : nat).
@@ -34,7 +35,9 @@ Inductive ex :=
 | XNew (sp : spsel)                    (* <space>.element()        uninitialised *)
 | XOwnOr (k : nat) (e : ex)            (* self.__tmp if self.__tmp is not None else e *)
 | XZero (sp : spsel)                   (* <space>.zero() *)
-| XCopy (a : ex).                      (* a.copy() / range.element(copy(a)) *)
+| XCopy (a : ex)                       (* a.copy() / range.element(copy(a)) *)
+| XSub (a b : ex)                      (* a - b                    new element *)
+| XAbs (a : ex).                       (* a.ufuncs.absolute()      new element *)
 
 Inductive st :=
 | TLet (r : ref) (e : ex)                                   (* r = e *)
@@ -46,7 +49,12 @@ Inductive st :=
 | TIScal (o : ref) (s : scal)                               (* o *= s   (scalar) *)
 | TMultiply (x1 x2 o : ref)                                 (* x1.multiply(x2, out=o) *)
 | TAssign (o : ref) (e : ex)                                (* o.assign(e) *)
-| TSetZero (o : ref).                                       (* o.set_zero() *)
+| TSetZero (o : ref)                                        (* o.set_zero() *)
+| TUAbs (x o : ref)                                         (* x.ufuncs.absolute(out=o) *)
+| TUMaxS (x : ref) (s : scal) (o : ref)                     (* x.ufuncs.maximum(s, out=o) *)
+| TUMinS (x : ref) (s : scal) (o : ref)                     (* x.ufuncs.minimum(s, out=o) *)
+| TIDivS (o : ref) (s : scal)                               (* o /= s     = o.lincomb(1.0 / s, o) *)
+| TDivide (x1 x2 o : ref).                                  (* x1.divide(x2, out=o) / x1.ufuncs.divide(x2, out=o) *)
 
 (* what the body returns: nothing, a name, the result of the last public in-place
    call (`return self.left(tmp, out=out)`), or an expression *)
